@@ -75,10 +75,11 @@ KINDS = {"fastq": ["marker", "plus"], "fasta2line": ["marker"], "bed": ["nonnum"
          "sam": ["nonnum"], "gtf": ["nonnum", "ncols_less"], "bdg": ["nonnum", "ncols_shift"]}
 LINES = {"fastq": 4, "fasta2line": 2}
 # numeric columns per format (from the format definitions) and texts that are not numbers of that kind
-NUMCOLS = {"bed": {1: "int", 2: "int"}, "bed6": {1: "int", 4: "optint", 5: "strand"}, "bdg": {2: "int", 3: "float"},
+NUMCOLS = {"bed12": {1: "int", 6: "int", 9: "int", 10: "intlist", 11: "intlist"}, "bed": {1: "int", 2: "int"}, "bed6": {1: "int", 4: "optint", 5: "strand"}, "bdg": {2: "int", 3: "float"},
            "narrowPeak": {4: "optint", 5: "strand", 6: "float", 9: "int"}, "vcf": {1: "int"}, "sam": {1: "int", 3: "int", 4: "int"},
            "gtf": {3: "int", 4: "int"}}
 BADTOK = {"int": ["x", "7x", "x7", "-", "+", "--1", "1-", "1 ", "+-1", "1e3", "1.5x", "4\x105", "\x11", "1\x0b"],
+          "intlist": ["x", "1,2x", "1;2", "-,2", "1,,x", ",x", "1,2,3,4x", "1,2,x,", "1.5,2"],
           "strand": ["K", "\x0b", "\x0e", "*", "k", "\x0d+"],
           "optint": ["x", ".x", "..", "7x", "-", ". ", ".7"],
           "float": ["x", "1.2.3", "1e", "e5", "--1.0", ".", "-", "1.0x", "1e+", "1_0", "-."]}
